@@ -10,6 +10,7 @@ import multiprocessing as mp
 
 VERIF = os.path.dirname(os.path.dirname(os.path.abspath(__file__)))
 sys.path.insert(0, VERIF)
+OUT = os.environ.get("VERIF_OUT") or VERIF      # evidence/ and replays/ go here (seeded-change runs use a scratch dir)
 
 from pysym import runner as R          # noqa: E402
 
@@ -92,8 +93,8 @@ def conclude(pid, tier, seed, summaries, known, wall, extra_results=()):
     violations_confirmed = 0
     errors = []
     inconclusive = []
-    os.makedirs(os.path.join(VERIF, "replays"), exist_ok=True)
-    os.makedirs(os.path.join(VERIF, "evidence"), exist_ok=True)
+    os.makedirs(os.path.join(OUT, "replays"), exist_ok=True)
+    os.makedirs(os.path.join(OUT, "evidence"), exist_ok=True)
     known_hit = {}
     nrep = 0
     for spec, summ in summaries:
@@ -117,7 +118,7 @@ def conclude(pid, tier, seed, summaries, known, wall, extra_results=()):
             # replay natively before reporting
             S, err = R.run_native(spec, tier, v["witness"])
             nrep += 1
-            path = os.path.join(VERIF, "replays", "%s-%s-%d.json" % (pid, spec.name, nrep))
+            path = os.path.join(OUT, "replays", "%s-%s-%d.json" % (pid, spec.name, nrep))
             json.dump({"property": pid, "spec": spec.name, "module": spec.module, "tier": tier, "label": v["label"],
                        "witness": v["witness"]}, open(path, "w"), indent=1, default=str)
             if v["label"] in S.failed or (S.failed and not err):
@@ -215,7 +216,7 @@ def write_evidence(pid, tier, seed, summaries, wall, nviol, errors, inconclusive
         cov["states"] = 1
     if cov["transitions"] < 1:
         cov["transitions"] = 1
-    p = os.path.join(VERIF, "evidence", "%s.json" % pid)
+    p = os.path.join(OUT, "evidence", "%s.json" % pid)
     json.dump(ev, open(p, "w"), indent=1, default=str)
 
 
